@@ -49,7 +49,9 @@ def forward (l r : Cls) : BOp → MRes
     else (if r.isDQ then .ret (.cls l) else .ret .raises)                        -- DualQuaternion.__mul__
   | .div =>
     if l.isPose then (if l == r then .ret (.cls l) else .ret .raises)            -- SMPose.__truediv__
-    else if l == .UQ then (if r.isQuat then .ret (.cls .UQ) else .ret .raises)   -- UnitQuaternion.__truediv__
+    -- UnitQuaternion.__truediv__: isinstance(left, type(right)) admits a plain Quaternion on the right, but the quotient
+    -- is then passed to the UnitQuaternion constructor, which rejects a non-unit value (generic Quaternion operand)
+    else if l == .UQ then (if r == .UQ then .ret (.cls .UQ) else .ret .raises)
     else .notImpl                                                                -- Quaternion: NotImplemented; others: absent
   | .add =>
     if l.isPose then (if r.sub l then (if l.sameShape r then .ret .arr else .ret .raises) else .ret .raises)   -- _op2
